@@ -155,7 +155,11 @@ def r3_writers(ctx, chk, rule="C01.3"):
     for w in [w for w in ws if len(w) == 3]:
         chk.undecided(rule, w[0].where(w[1]), "`%s`: attribute name not determined statically; it may write reach_probability" % norm_stmt(w[1]))
     ws = [w for w in ws if len(w) == 2]
+    scope_q = {g.qual for g in shared.solver_scope(ctx)}
     for f, n in ws:
+        if f.qual not in scope_q and f.qual not in allowed:
+            chk.note("%s writes reach_probability but is not reachable from solve(): it cannot influence a reported value" % f.short)
+            continue
         if f.qual in allowed:
             chk.ok(rule, f.where(n), "writer of reach_probability: `%s`" % norm_stmt(n))
         else:
